@@ -222,7 +222,15 @@ theorem lex_stage (dp : Path) (dest : Str) (o : Opts) (e : Entry) (st : LState) 
         refine bindL dp _ _ (lex_createTarFile dp (join t (base n)) dest e o (lexArg_of hjw.1 hjw.2) hd hdp htyp) ?_
         intro out _
         split
-        · apply lexSem_pure; intro st' h; cases h
+        · split
+          · refine bindL dp _ _ (lex_info dp (.removeAll t) ⟨lexArg_of htc (by rw [hx]; exact List.prefix_append _ _), ?_⟩) ?_
+            · rw [hx]
+              intro e'
+              have := congrArg List.length e'
+              simp at this
+            · intro _ _
+              apply lexSem_pure; intro st' h; cases h
+          · apply lexSem_pure; intro st' h; cases h
         · apply lexSem_pure
           intro st' h
           injection h with h
